@@ -59,8 +59,8 @@ def random_display_transforms(g, response):
         ("rows_dimension", dims[-2]), ("columns_dimension", dims[-1])]
     for key, dim in targets:
         ids = list(dim.element_ids)
-        if not ids:
-            continue
+        if not ids or any(i is None for i in ids) or len(set(map(str, ids))) != len(ids):
+            continue  # a fixture without usable element ids: nothing to refer to
         dd = {}
         r = g.r
         if r.random() < 0.6:
